@@ -2,7 +2,6 @@ package ons
 
 import (
 	"encoding/json"
-	"math/big"
 
 	"github.com/tendermint/tendermint/libs/kv"
 
@@ -194,7 +193,10 @@ func runPurchaseDomain(ctx *action.Context, tx action.RawTx) (bool, action.Respo
 			return false, action.Response{Log: err.Error()}
 		}
 
-		extend = big.NewInt(0).Div(remain.Amount.BigInt(), opt.PerBlockFees.BigInt()).Int64()
+		extend, err = blocksBought(remain.Amount.BigInt(), opt.PerBlockFees.BigInt())
+		if err != nil {
+			return false, action.Response{Log: err.Error()}
+		}
 
 	} else {
 		// calculate expiry from the buying price
@@ -205,6 +207,15 @@ func runPurchaseDomain(ctx *action.Context, tx action.RawTx) (bool, action.Respo
 			}
 		}
 
+	}
+
+	// the new expiry height (see ResetAfterSale) must stay representable
+	extendFrom := ctx.State.Version()
+	if domain.ExpireHeight > extendFrom {
+		extendFrom = domain.ExpireHeight
+	}
+	if expiryOverflows(extendFrom, extend) {
+		return false, action.Response{Log: errTooManyBlocks.Error()}
 	}
 
 	// calculate the number of blocks by which to extend the expiry height
